@@ -258,9 +258,16 @@ def addSubConn (s : St) : St × Bool × List Event :=
     ({ s with scRefs := insert s.scRefs sc s.refs.length, scStates := insert s.scStates sc .idle,
               refs := s.refs ++ [ref] }, true, ev ++ [.connect sc])
 
-/-- newSubConn: only if no connection is Connecting or Idle -/
+/-- a READY channel of the pool with room below the stream low-watermark (F37: the picker judged the load
+    on its own list of READY channels; one that became READY since then has capacity) -/
+def readyBelowWm (s : St) : Bool :=
+  match s.cfg with
+  | some c => s.refs.any fun r => lookup s.scStates r.subConn == some .ready && decide (r.streamsCnt < (c.wm : Int))
+  | none => false
+
+/-- newSubConn: only if no connection is Connecting or Idle, and no READY channel has room -/
 def newSubConn (s : St) : St × List Event :=
-  if s.scStates.any (fun p => p.2 == .connecting || p.2 == .idle) then (s, [])
+  if s.scStates.any (fun p => p.2 == .connecting || p.2 == .idle) || readyBelowWm s then (s, [])
   else let (s, _, ev) := addSubConn s; (s, ev)
 
 /-- enforceMinSize (stops at the first factory failure; at most `fuel = min` iterations are needed) -/
